@@ -271,7 +271,7 @@ pub fn main(def: CheckDef) -> ! {
         partial = true; // a developer convenience: never writes evidence
     }
     let jobs: usize = std::env::var("VERIF_JOBS").ok().and_then(|s| s.parse().ok()).unwrap_or(14);
-    let default_budget = if ctx.quick() { 40.0 } else { 1500.0 };
+    let default_budget = if ctx.quick() { 120.0 } else { 1500.0 };
     let hard_factor = 6.0;
     struct Running {
         idx: usize,
